@@ -152,6 +152,7 @@ type bFrame struct {
 	pc     int
 	call   interface{} // the call instruction in the caller waiting for this frame's result
 	visits map[int]int // loop-header visit counts
+	abs    map[int]bool // loop headers entered in abstracted form (loopabs)
 }
 
 type bState struct {
@@ -178,6 +179,12 @@ func (s *bState) clone() *bState {
 		nf.visits = make(map[int]int, len(f.visits))
 		for k, v := range f.visits {
 			nf.visits[k] = v
+		}
+		if f.abs != nil {
+			nf.abs = make(map[int]bool, len(f.abs))
+			for k, v := range f.abs {
+				nf.abs[k] = v
+			}
 		}
 		n.frames = append(n.frames, &nf)
 	}
